@@ -124,3 +124,42 @@ Proof.
   rewrite ES. cbn [bind]. rewrite (H1 s2). cbn [app]. rewrite Hp. cbn [snd bind].
   rewrite LQ. cbn [bind]. rewrite (make_layer_wf n gates3 W). reflexivity.
 Qed.
+
+(* ------------------------------------------------------------------ at least half of the ordered pairs are accepted *)
+Lemma ordered_pairs_length l : length (ordered_pairs l) = (length l * (length l - 1))%nat.
+Proof.
+  induction l as [|x t IH]; [reflexivity|]. cbn [ordered_pairs]. rewrite app_length, IH.
+  assert (E : length (flat_map (fun y => [(x, y); (y, x)]) t) = (2 * length t)%nat).
+  { clear IH. induction t as [|y t IHt]; [reflexivity|]. cbn [flat_map app length]. rewrite IHt. lia. }
+  rewrite E. cbn [length]. destruct (length t) as [|m]; simpl; lia.
+Qed.
+
+Lemma ordered_pairs_in l : NoDup l -> forall a b, In (a, b) (ordered_pairs l) <-> In a l /\ In b l /\ a <> b.
+Proof.
+  induction l as [|x t IH]; intros ND a b; [simpl; tauto|].
+  inversion ND as [|? ? Hx NDt]; subst. cbn [ordered_pairs]. rewrite in_app_iff, (IH NDt), in_flat_map. split.
+  - intros [[y [Hy Hp]]|[Ha [Hb Hab]]].
+    + simpl in Hp. destruct Hp as [Hp|[Hp|[]]]; inversion Hp; subst; simpl; repeat split; auto; intros ->; contradiction.
+    + simpl. tauto.
+  - intros [[Ha|Ha] [[Hb|Hb] Hab]]; subst.
+    + congruence.
+    + left. exists b. split; [exact Hb | left; reflexivity].
+    + left. exists a. split; [exact Ha | right; left; reflexivity].
+    + right. tauto.
+Qed.
+
+Theorem accept_half prev crq :
+  prev_wf prev ->
+  (length (ordered_pairs crq) <= 2 * length (accepted_pairs prev crq))%nat.
+Proof.
+  intros PW. unfold accepted_pairs. induction crq as [|x t IH]; [simpl; lia|].
+  cbn [ordered_pairs]. rewrite filter_app, !app_length.
+  assert (E : (length (flat_map (fun y => [(x, y); (y, x)]) t)
+               <= 2 * length (filter (fun p => accepts prev (fst p) (snd p)) (flat_map (fun y => [(x, y); (y, x)]) t)))%nat).
+  { clear IH. induction t as [|y t IHt]; [simpl; lia|].
+    cbn [flat_map app filter fst snd].
+    destruct (accepts prev x y) eqn:A1; destruct (accepts prev y x) eqn:A2; cbn [length]; try lia.
+    exfalso. destruct prev as [p|]; [|simpl in A1; discriminate].
+    rewrite (accepts_asym p x y PW A1) in A2. discriminate. }
+  lia.
+Qed.
